@@ -93,6 +93,8 @@ Proof.
       match fs path with
       | None => ([Open path false; Send (r_notfound cfg); Close], Done)
       | Some content =>
+          if term_overflows subst content
+          then ([Open path true; Send (r_ok cfg); Send (content_type fname'); Send s_crlf], Crash (Overflow 8)) else
           match body_effects cfg params subst (chunks (S (length content)) chunk_len content) with
           | None => ([Open path true; Send (r_ok cfg); Send (content_type fname'); Send s_crlf], Crash (Overflow 6))
           | Some body =>
@@ -112,7 +114,7 @@ Proof.
     destruct Hf' as [t'' [Hf1 Hf2]].
     destruct (Zlength (httpDir cfg) + Zlength fname' + 1 >? C20_FULLFNAME_SIZE); [simpl; tauto|].
     destruct (fs (httpDir cfg ++ fname')) as [content|].
-    - destruct (body_effects cfg params (ends_with_vnc fname') (chunks (S (length content)) chunk_len content)) as [body|] eqn:Eb.
+    - rewrite term_fits; destruct (body_effects cfg params (ends_with_vnc fname') (chunks (S (length content)) chunk_len content)) as [body|] eqn:Eb.
       + simpl. intros [H|[H|[H|[H|H]]]]; try discriminate.
         * inversion H; subst. exists fname', t''. auto.
         * apply in_app_or in H. destruct H as [H|[H|[]]]; try discriminate.
